@@ -98,6 +98,20 @@ fn inputs(rng: &mut Rng, is32: bool, a: f64, b: f64) -> Vec<f64> {
     }
     v.push(rt(a + (b - a) * 0.25));
     v.push(rt(a + (b - a) * 0.75));
+    // "round" inputs: what a user types or gets from a coarser pipeline -- whole numbers, values that are exact in
+    // single precision, values with a short mantissa, short decimals -- wherever the interval contains one
+    for t in [0.1, 0.37, 0.5, 0.63, 0.9] {
+        let x = a + (b - a) * t;
+        v.push((x as f32) as f64);
+        v.push(x.round());
+        v.push((x * 10.0).round() / 10.0);
+        v.push((x * 1000.0).round() / 1000.0);
+        for keep in [8u32, 16, 24, 32] {
+            let bits = x.to_bits() & !((1u64 << (52 - keep)) - 1);
+            v.push(f64::from_bits(bits));
+            v.push(f64::from_bits(bits + (1u64 << (52 - keep))));
+        }
+    }
     v.retain(|x| *x >= a && *x <= b && x.is_finite());
     v.sort_by(|x, y| x.partial_cmp(y).unwrap());
     v.dedup();
@@ -437,7 +451,7 @@ pub fn run(p: &Params) -> Outcome {
         if part == 0 {
             ctx.count("scaled_fields");
             if ctx.want_sample() {
-                ctx.sample(|| json!({"field": gr.name, "type": if gr.is32 {"f32"} else {"f64"}, "k_range": [gr.kmin.to_string(), gr.kmax.to_string()], "intervals_sampled": ks.len(), "inputs_per_interval": "grid points, +-1/2/8 ulps, half step +-1/2/8 ulps, quarter points, 6 random", "g(0),g(1)": [(gr.g)(0), (gr.g)(1)]}));
+                ctx.sample(|| json!({"field": gr.name, "type": if gr.is32 {"f32"} else {"f64"}, "k_range": [gr.kmin.to_string(), gr.kmax.to_string()], "intervals_sampled": ks.len(), "inputs_per_interval": "grid points, +-1/2/8 ulps, half step +-1/2/8 ulps, quarter points, 6 random, and the round inputs inside the interval (whole numbers, single-precision-exact values, 8/16/24/32-bit mantissas, 1 and 3 decimals)", "g(0),g(1)": [(gr.g)(0), (gr.g)(1)]}));
             }
         }
     });
@@ -446,7 +460,7 @@ pub fn run(p: &Params) -> Outcome {
     }
     Outcome {
         ctx: total,
-        rule: format!("every float-typed field with a resolution ({} from the scan) + the three bias quantisers through one-entry messages and as one entry at a random place in a list of up to 14 others (other satellites and signals, for 1059/1065 also valid signals those messages have no code for); for sampled k over the whole range (dense at the ends, around zero and powers of two; all k when the range is small): inputs between g(k) and g(k+1) incl. half step +-ulps; oracle: encoded value in {{k,k+1}}, |x-g| <= step/2 + slack (4 eps q step + 4 eps (|x|+|bias|+step)), monotone; inputs per interval are distinct by construction", n_scaled),
+        rule: format!("every float-typed field with a resolution ({} from the scan) + the three bias quantisers through one-entry messages and as one entry at a random place in a list of up to 14 others (other satellites and signals, for 1059/1065 also valid signals those messages have no code for); for sampled k over the whole range (dense at the ends, around zero and powers of two; all k when the range is small): inputs between g(k) and g(k+1) incl. half step +-ulps and round inputs (whole numbers, single-precision-exact values, short mantissas, short decimals); oracle: encoded value in {{k,k+1}}, |x-g| <= step/2 + slack (4 eps q step + 4 eps (|x|+|bias|+step)), monotone; inputs per interval are distinct by construction", n_scaled),
         exhaustive: false,
         extra: json!({"scaled_fields": n_scaled}),
     }
